@@ -2,10 +2,14 @@ package main
 
 import (
 	"fmt"
+	"os"
 	"path/filepath"
 	"strings"
 
 	"github.com/consensys/gnark/frontend"
+	"github.com/consensys/gnark/test"
+	"github.com/wormhole-foundation/example-near-light-client/types"
+	"github.com/wormhole-foundation/example-near-light-client/verifier"
 	"github.com/wormhole-foundation/example-near-light-client/challenger"
 	gl "github.com/wormhole-foundation/example-near-light-client/goldilocks"
 	"github.com/wormhole-foundation/example-near-light-client/poseidon"
@@ -294,6 +298,31 @@ func runC11(r *Run) {
 }
 
 // transcriptCheck compares every challenge of the real GetChallenges with the reference transcript.
+// twiceCircuit derives the challenges of the same proof twice on one VerifierChip.
+type twiceCircuit struct {
+	Proof        variables.Proof
+	PublicInputs []gl.Variable
+	VD           variables.VerifierOnlyCircuitData
+	Common       types.CommonCircuitData `gnark:"-"`
+}
+
+func (c *twiceCircuit) Define(api frontend.API) error {
+	chip := verifier.NewVerifierChip(api, c.Common)
+	h := chip.GetPublicInputsHash(c.PublicInputs)
+	a := chip.GetChallenges(c.Proof, h, c.VD)
+	b := chip.GetChallenges(c.Proof, h, c.VD)
+	g := gl.New(api)
+	for i := range a.PlonkBetas {
+		g.AssertIsEqual(a.PlonkBetas[i], b.PlonkBetas[i])
+	}
+	g.AssertIsEqual(a.PlonkZeta[0], b.PlonkZeta[0])
+	g.AssertIsEqual(a.FriChallenges.FriPowResponse, b.FriChallenges.FriPowResponse)
+	for i := range a.FriChallenges.FriQueryIndices {
+		g.AssertIsEqual(a.FriChallenges.FriQueryIndices[i], b.FriChallenges.FriQueryIndices[i])
+	}
+	return nil
+}
+
 func transcriptCheck(r *Run, in *instance) {
 	var got *variables.ProofChallenges
 	var pih *poseidon.GoldilocksHashOut
@@ -309,6 +338,21 @@ func transcriptCheck(r *Run, in *instance) {
 	if w.Panic != "" || w.Err != nil {
 		walkFailed(r, in, "verifier", w)
 		return
+	}
+	{
+		// a second transcript on the same chip starts from a fresh challenger, as every proof does in
+		// plonky2: on the real code (gnark test engine), two GetChallenges calls on one chip with the same
+		// proof must give the same challenges
+		c, wit := &twiceCircuit{Proof: cloneValue(in.Proof.Proof), PublicInputs: cloneValue(in.Proof.PublicInputs), VD: cloneValue(in.VD), Common: in.Common}, &twiceCircuit{Proof: cloneValue(in.Proof.Proof), PublicInputs: cloneValue(in.Proof.PublicInputs), VD: cloneValue(in.VD), Common: in.Common}
+		clearHooks()
+		os.Setenv("USE_BIT_DECOMPOSITION_RANGE_CHECK", "true")
+		var err error
+		pm := catchPanic(func() { quiet(func() { err = test.IsSolved(c, wit, R) }) })
+		os.Unsetenv("USE_BIT_DECOMPOSITION_RANGE_CHECK")
+		forgetChips()
+		if pm != "" || err != nil {
+			r.addViolationWithReplay("second transcript on the same verifier chip", fmt.Sprintf("%s: GetChallenges called a second time on the same VerifierChip with the same proof gives other challenges than the first time (every transcript must start from a fresh challenger)", in.Name), map[string]any{"kind": "vc", "observation": "two GetChallenges calls on one chip"}, "gnark test engine on the real code: "+short(pm+fmt.Sprint(err), 120))
+		}
 	}
 	if got == nil || pih == nil {
 		r.addViolationStructural("transcript not derived", fmt.Sprintf("%s: Verify does not derive its challenges through GetChallenges / the public-input hash", in.Name))
